@@ -4,6 +4,7 @@ import (
 	"crypto/tls"
 	"fmt"
 	"net"
+	"runtime"
 	"strings"
 	"sync"
 	"sync/atomic"
@@ -26,7 +27,7 @@ func init() {
 		Phases: func(tier string, seed int64) []Phase {
 			return []Phase{{Name: "fences", Race: true, Run: c12Run}}
 		},
-		MinObserved: []string{"fences_checked", "order/stop-before-run", "order/race-startup", "order/after-ready", "runs_with_handlers_parked_at_stop", "runs_with_onclose_slow", "runs_with_connect_storm", "runs_with_tls_sessions_torn_down", "tls_sessions_served_before_stop", "runs_with_parked_handlers_whose_client_hung_up", "runs_with_an_unbind_handler_held_at_stop", "runs_with_tls_handlers_parked_at_stop", "runs_with_onclose_held_for_seconds", "runs_with_an_onclose_callback_running_and_no_connection_open_at_stop", "runs_with_handlers_held_more_than_a_second_after_stop", "runs_with_parked_handlers_whose_session_ended_with_an_unbind", "tls_listener_connections_refused_during_the_handshake", "runs_on_a_server_without_panic_recovery_with_handlers_parked_at_stop", "runs_with_handlers_parked_beyond_the_read_timeout", "runs_with_clients_that_half_closed_before_stop", "fences_on_servers_with_a_write_timeout_whose_clients_waited_for_the_close"},
+		MinObserved: []string{"fences_checked", "startup_orders_on_a_tls_listener", "order/stop-before-run", "order/race-startup", "order/after-ready", "runs_with_handlers_parked_at_stop", "runs_with_onclose_slow", "runs_with_connect_storm", "runs_with_tls_sessions_torn_down", "tls_sessions_served_before_stop", "runs_with_parked_handlers_whose_client_hung_up", "runs_with_an_unbind_handler_held_at_stop", "runs_with_tls_handlers_parked_at_stop", "runs_with_onclose_held_for_seconds", "runs_with_an_onclose_callback_running_and_no_connection_open_at_stop", "runs_with_handlers_held_more_than_a_second_after_stop", "runs_with_parked_handlers_whose_session_ended_with_an_unbind", "tls_listener_connections_refused_during_the_handshake", "runs_on_a_server_without_panic_recovery_with_handlers_parked_at_stop", "runs_with_handlers_parked_beyond_the_read_timeout", "runs_with_clients_that_half_closed_before_stop", "fences_on_servers_with_a_write_timeout_whose_clients_waited_for_the_close"},
 	})
 }
 
@@ -100,9 +101,13 @@ func c12One(c *Ctx, r *Rand, idx int) {
 	if state == "parked-beyond-read-timeout" {
 		cfg.ReadTimeout = time.Duration(100+r.Intn(150)) * time.Millisecond
 	}
-	if state == "tls-teardown" || state == "tls-parked" {
+	if state == "tls-teardown" || state == "tls-parked" || (order != "after-ready" && idx%3 == 1) {
+		// (start-up races and Stop-before-Run also on a TLS listener: Run has more to set up there)
 		c12PKIOnce.Do(func() { c12PKI = newPKI() })
 		cfg.TLS = c12PKI.ServerOnly
+		if order != "after-ready" {
+			c.Count("startup_orders_on_a_tls_listener", 1)
+		}
 	}
 	switch {
 	case idx%5 == 3:
@@ -180,7 +185,14 @@ func c12One(c *Ctx, r *Rand, idx int) {
 		startRun()
 	case "race-startup":
 		startRun()
-		time.Sleep(time.Duration(r.Intn(300)) * time.Microsecond)
+		if idx%2 == 1 {
+			// Stop the instant Ready() turns true (nobody has dialled: nothing but Ready orders the two goroutines)
+			for dl := time.Now().Add(5 * time.Second); !srv.S.Ready() && time.Now().Before(dl); {
+				runtime.Gosched()
+			}
+		} else {
+			time.Sleep(time.Duration(r.Intn(300)) * time.Microsecond)
+		}
 		readyAtStop = srv.S.Ready()
 		callStop()
 	case "after-ready":
